@@ -35,6 +35,9 @@ def _is_integer(n) -> bool:
 
 
 def _is_swaplike(gate: cirq.Gate) -> bool:
+    if protocols.is_parameterized(gate):
+        # Whether a symbolic power is swap-like depends on the value it gets later.
+        return False
     if isinstance(gate, ops.SwapPowGate):
         return gate.exponent == 1
 
